@@ -33,11 +33,16 @@ var _ *imapserver.FetchWriter
 //@   requires mbox != nil && imapserver.TrackerWF(mbox.tracker)
 //@   callsite SeqSet.AddNum(s *imap.SeqSet, nums []uint32) requires forall k int :: 0 <= k && k < len(nums) ==> nums[k] != 0
 
-// MOVE reports each removed message with EXPUNGE.
+// MOVE reports each removed message exactly once: removing the messages queues
+// one EXPUNGE update per message on every view (expungeLocked), the moving
+// session's included, and those are sent by the poll that follows the handler;
+// Move itself therefore writes no EXPUNGE (writing them as well reported every
+// message twice, with numbers computed after the queueing - fixed defect F19).
 //
 //@ func (sess *UserSession) Move(w *imapserver.MoveWriter, numSet imap.NumSet, destName string) (err error)
-//@   props C08:callsite
-//@   callsite MoveWriter.WriteExpunge(mw *imapserver.MoveWriter, n uint32) requires n != 0
+//@   props C08:post,callsite
+//@   ensures !__called("MoveWriter.WriteExpunge")
+//@   ensures err == nil ==> __called("MoveWriter.WriteCopyData") && __called("Mailbox.expungeLocked")
 
 // ---------------------------------------------------------------------------
 // C09: no syntactically valid command makes the back end crash — partial
